@@ -49,6 +49,7 @@ PROP = {
                  # wire-level speaker: composition of the C30/C31/C32/C33 models (Properties/ISISSpeaker.v, notes/ISISSpeaker.md)
                  "ISISSpeaker_garbage_changes_nothing", "ISISSpeaker_other_pdu_types_change_nothing",
                  "ISISSpeaker_ack_roundtrips", "ISISSpeaker_hello_reflects_adjacency",
+                 "ISISSpeaker_verdict_of_emitted", "ISISSpeaker_two_speaker_closure",
                  "ISISSpeaker_lsp_roundtrip_lists_up", "ISISSpeaker_service_installs_own_lsp"],
     "allowed_axioms": [],
     "harness": "c32",
